@@ -18,7 +18,9 @@ func parseCypher(ctx *Context, input string) (*cypher.RegularQuery, error) {
 		tokenStream     = antlr.NewCommonTokenStream(lexer, antlr.TokenDefaultChannel)
 		parserInst      = parser.NewCypherParser(tokenStream)
 		parseTreeWalker = antlr.NewParseTreeWalker()
-		queryVisitor    = &QueryVisitor{}
+		// The walk continues below query forms that are reported as unsupported (USING PERIODIC COMMIT ... wraps a
+		// single query), so the root visitor starts with a query to build into rather than a nil one.
+		queryVisitor = &QueryVisitor{Query: cypher.NewRegularQuery()}
 	)
 
 	// Set up the lexer and parser to report errors to the context
